@@ -31,19 +31,26 @@ class Case:
         return {"world": self.world, "opts": self.opts, "label": self.label}
 
 
-def accept_for(opts):
+def statement_accept(pats):
+    """the C08 sentence, evaluated pattern by pattern (each pattern compiled on its own, search mode):
+    selected iff some positive pattern matches (or only '!'-patterns were given) and no '!'-pattern matches"""
     import re
+    pos = [re.compile(p) for p in pats if not p.startswith("!")]
+    neg = [re.compile(p[1:]) for p in pats if p.startswith("!")]
+    return lambda name: bool((any(r.search(name) for r in pos) or (not pos and bool(neg)))
+                             and not any(r.search(name) for r in neg))
+
+
+def accept_for(opts):
     pats = opts.get("test") or []
     if not pats:
         return None
-    from zope.testrunner.filter import build_filtering_func
-    f = build_filtering_func(pats)
+    f = statement_accept(pats)
     return lambda tid, tests=None: f("t%d (x)" % tid)
 
 
 def layer_filter(world, opts, groups):
-    """Filter.global_setup on the discovered groups (through the real predicate: C08/C09 cover it)."""
-    from zope.testrunner.filter import build_filtering_func
+    """Filter.global_setup on the discovered groups, as the statements of C08/C09 say"""
     names = {li: worlds.layer_name(world, li) for li, _ in groups}
     unit, non_unit = opts.get("unit"), opts.get("non_unit")
     if unit and non_unit:
@@ -51,15 +58,13 @@ def layer_filter(world, opts, groups):
     pats = list(opts.get("layer") or [])
     if unit:
         pats = [r"^zope\.testrunner\.layer\.UnitTests$"]
+    acc = statement_accept(pats) if pats else None
     out = []
     for li, ts in groups:
         n = names[li]
-        if n == worlds.UNIT_NAME:
-            if non_unit:
-                continue
-            if pats and not build_filtering_func(pats)(n):
-                continue
-        if pats and not build_filtering_func(pats)(n):
+        if n == worlds.UNIT_NAME and non_unit:
+            continue
+        if acc is not None and not acc(n):
             continue
         out.append([li, ts])
     return out
